@@ -119,8 +119,7 @@ fn main() {
     let mut n_plans = 0usize;
     let mut fails: Vec<String> = vec![];
     let mut plans_txt = String::new();
-    let mut do_plan = |plan: &mut Plan, gen: Option<(Profile, usize)>, out: &mut dyn Write| {
-        let o = run_m(plan, gen, sa, fo);
+    let mut emit = |o: Out, plan: Option<&Plan>, out: &mut dyn Write| {
         out.write_all(o.trace.as_bytes()).unwrap();
         for f in &o.oracle_fails {
             writeln!(out, "{}", f).unwrap();
@@ -132,7 +131,7 @@ fn main() {
         for (k, v) in o.res_kinds {
             *summary.entry(k).or_insert(0) += v;
         }
-        if plans_path.is_some() {
+        if let (Some(plan), true) = (plan, plans_path.is_some()) {
             plans_txt.push_str(&plan.header(sa));
             plans_txt.push('\n');
             for op in &plan.ops {
@@ -184,14 +183,67 @@ fn main() {
                     _ => false,
                 };
                 let mut plan = Plan { idx: i, seed: pseed, m, fault, shape: shape_on, uniform, ops: vec![] };
-                do_plan(&mut plan, Some((prof, n_ops_per)), &mut out);
+                let o = run_m(&mut plan, Some((prof, n_ops_per)), sa, fo);
+                emit(o, Some(&plan), &mut out);
+            }
+        }
+        "pair" => {
+            // two arenas interleaved on one thread (C20: isolation)
+            let seed: u64 = kv(&toks, "seed").and_then(|s| s.parse().ok()).unwrap_or(1);
+            let n: usize = kv_usize(&toks, "plans").unwrap_or(10);
+            let n_ops_per: usize = kv_usize(&toks, "ops").unwrap_or(30);
+            let prof = profile_from_str(kv(&toks, "profile").unwrap_or("general"));
+            let mut r = Rng::new(seed);
+            for i in 0..n {
+                let m = [1usize, 2, 4, 8, 16][i % 5];
+                let (s1, s2) = (r.next() >> 1, r.next() >> 1);
+                let fault = if r.chance(1, 4) { Fault::Kth(r.below(6) as u32) } else { Fault::None };
+                let mut p1 = Plan { idx: 2 * i, seed: s1, m, fault, shape: false, uniform: None, ops: vec![] };
+                let mut p2 = Plan { idx: 2 * i + 1, seed: s2, m, fault, shape: false, uniform: None, ops: vec![] };
+                let (o1, o2) = match m {
+                    1 => run_pair::<1>(&mut p1, &mut p2, prof, n_ops_per, sa, fo),
+                    2 => run_pair::<2>(&mut p1, &mut p2, prof, n_ops_per, sa, fo),
+                    4 => run_pair::<4>(&mut p1, &mut p2, prof, n_ops_per, sa, fo),
+                    8 => run_pair::<8>(&mut p1, &mut p2, prof, n_ops_per, sa, fo),
+                    _ => run_pair::<16>(&mut p1, &mut p2, prof, n_ops_per, sa, fo),
+                };
+                emit(o1, Some(&p1), &mut out);
+                emit(o2, Some(&p2), &mut out);
+            }
+        }
+        "threads" => {
+            // each thread drives its own arena concurrently (C20); traces are written after the join
+            let seed: u64 = kv(&toks, "seed").and_then(|s| s.parse().ok()).unwrap_or(1);
+            let rounds: usize = kv_usize(&toks, "plans").unwrap_or(4);
+            let nthreads: usize = kv_usize(&toks, "threads").unwrap_or(4);
+            let n_ops_per: usize = kv_usize(&toks, "ops").unwrap_or(40);
+            let prof = profile_from_str(kv(&toks, "profile").unwrap_or("general"));
+            let mut r = Rng::new(seed);
+            for round in 0..rounds {
+                let barrier = std::sync::Arc::new(std::sync::Barrier::new(nthreads));
+                let mut handles = vec![];
+                for t in 0..nthreads {
+                    let pseed = r.next() >> 1;
+                    let m = [1usize, 2, 4, 8, 16][(round + t) % 5];
+                    let b = barrier.clone();
+                    handles.push(std::thread::spawn(move || {
+                        let mut plan = Plan { idx: round * nthreads + t, seed: pseed, m, fault: Fault::None, shape: false, uniform: None, ops: vec![] };
+                        b.wait();
+                        run_m(&mut plan, Some((prof, n_ops_per)), sa, fo)
+                    }));
+                }
+                for h in handles {
+                    let o = h.join().expect("worker thread");
+                    emit(o, None, &mut out);
+                }
             }
         }
         "replay" => {
             let path = toks.get(2).expect("replay <file>");
             let text = std::fs::read_to_string(path).expect("read plan file");
             for mut plan in Plan::parse(&text) {
-                do_plan(&mut plan, None, &mut out);
+                let o = run_m(&mut plan, None, sa, fo);
+                emit(o, Some(&plan), &mut out);
             }
         }
         _ => {
@@ -199,7 +251,7 @@ fn main() {
             std::process::exit(2);
         }
     }
-    drop(do_plan);
+    drop(emit);
     if let Some(p) = plans_path {
         std::fs::write(p, plans_txt).unwrap();
     }
